@@ -1,4 +1,5 @@
 import Got.Lemmas.MSQueueSolo
+import Got.Lemmas.MSQueueGlobal
 /-
 C02 — loom.Queue is lock-free: an operation running alone always finishes.
 
@@ -89,3 +90,39 @@ def worstPop : List Act :=
 
 example : busy (run init worstPop) 2 ∧ busy (solo 2 12 (run init worstPop)) 2 ∧
     ¬ busy (solo 2 13 (run init worstPop)) 2 ∧ mu (run init worstPop) 2 = 13 := by decide
+
+/-! ### system-wide lock-freedom (stronger than the solo statement: nobody runs alone)
+
+`completed s` = number of operations that have returned (`.ret` events of the log); `Sched n s as` = every `tau`
+step of the action list `as` is taken by a thread with id `< n` that is busy at that moment, invocations by any
+thread are interleaved freely; `nTau as` = number of `tau` steps; `F n = (K·n + 1)·(2n + 2)`.  Proof
+(Got/Lemmas/MSQueueGlobal.lean): potential `phi` = Σ_{t<n} solo measure + (K·n+1)·(remaining heap changes); every
+busy step either completes an operation or strictly decreases `phi`; a failed CAS / re-check is paid for by the
+link or swing of another operation, of which a window without completion contains at most `2n + 1`. -/
+
+/-- **Lock-freedom under arbitrary interleaving** (mechanism "a failed CAS implies another operation made
+    progress"): from every reachable state, in every window that contains at least `m · F n` steps — each by an
+    arbitrary busy thread with id below `n`, interleaved with arbitrary invocations, no thread running alone — at
+    least `m` operations complete. -/
+theorem C02_lock_free_window : ∀ (acts : List Act) (n : Nat) (as : List Act),
+    Sched n (run init acts) as → ∀ m, m * F n ≤ nTau as →
+    completed (run init acts) + m ≤ completed (run (run init acts) as) :=
+  fun acts _ _ hs m hlen => lock_free_window (inv_reachable acts) hs m hlen
+
+/-- the `tau`-only form: under ANY interleaving of the steps of busy threads with ids below `n`, some operation
+    returns within `F n` steps. -/
+theorem C02_lock_free_global : ∀ (acts : List Act) (ts : List Nat) (n : Nat),
+    (∀ t ∈ ts, t < n) → BusySched (run init acts) ts → F n ≤ ts.length →
+    completed (run init acts) < completed (ts.foldl tau (run init acts)) :=
+  fun acts ts n hn hs hlen => lock_free_global acts ts n hn hs hlen
+
+/-- every busy step either completes an operation or strictly decreases the potential (the amortised core). -/
+theorem C02_step_dichotomy : ∀ (acts : List Act) (t n : Nat), t < n → busy (run init acts) t →
+    completed (run init acts) < completed (tau (run init acts) t) ∨
+    phi n (tau (run init acts) t) < phi n (run init acts) :=
+  fun acts _ _ ht hb => tau_dichotomy (inv_reachable acts) ht hb
+
+/-- non-vacuity: all hypotheses of `C02_lock_free_window` hold together on a concrete window (two threads, one
+    pushing and one popping for ever, round-robin: 166 ≥ F 2 = 162 `tau` steps), so the theorem applies. -/
+example : completed (run init []) + 1 ≤ completed (run (run init []) (rr 100 init)) :=
+  C02_lock_free_window [] 2 (rr 100 init) rr_hyps.1 1 rr_hyps.2
